@@ -8,6 +8,7 @@ import sys
 import types
 
 from . import proxies as P
+from . import symcoll
 from .explorer import EX, Unsupported
 
 REPO = os.environ.get("NMEA2000_REPO", "/repo")
@@ -18,7 +19,9 @@ REWRITES = [
     "logger.<level>(...) statements -> pass",
     "f-strings -> _sx_fstr([...]) (point-wise / symbolic hex rendering)",
     "loop bodies get _sx_tick() (loop fuel = unwinding assertion)",
-    "`assert c` -> evaluated normally (symbolic condition forks)",
+    "dict/set literals, comprehensions and dict()/set() -> SymDict/SymSet (sound lookups under symbolic keys)",
+    "`sep.join(x)` on a string literal -> _sx_join (symbolic text)",
+    "`a in b` / `a not in b` -> _sx_in/_sx_not_in",
 ]
 
 
@@ -72,6 +75,22 @@ class Rewriter(ast.NodeTransformer):
                 parts.append(ast.Tuple([v.value, ast.Constant(v.conversion), spec], ast.Load()))
         return ast.copy_location(ast.Call(ast.Name("_sx_fstr", ast.Load()), [ast.List(parts, ast.Load())], []), node)
 
+    def _wrap(self, node, fn):
+        self.generic_visit(node)
+        return ast.copy_location(ast.Call(ast.Name(fn, ast.Load()), [node], []), node)
+
+    def visit_Dict(self, node):
+        return self._wrap(node, "_sx_dict")
+
+    def visit_DictComp(self, node):
+        return self._wrap(node, "_sx_dict")
+
+    def visit_Set(self, node):
+        return self._wrap(node, "_sx_set")
+
+    def visit_SetComp(self, node):
+        return self._wrap(node, "_sx_set")
+
     def _tick(self, node):
         self.generic_visit(node)
         node.body.insert(0, ast.Expr(ast.Call(ast.Name("_sx_tick", ast.Load()), [], [])))
@@ -98,6 +117,8 @@ def _sx_not(x):
 
 
 def _sx_in(a, c):
+    if type(c) in (dict, set, frozenset) and isinstance(a, P.SymInt):
+        c = symcoll.SymDict(c) if type(c) is dict else symcoll.SymSet(c)
     if hasattr(c, "__sx_contains__"):
         return c.__sx_contains__(a)
     if hasattr(a, "__sx_in__"):
@@ -167,7 +188,8 @@ def load_module(modname, relpath, package="nmea2000", pre=None, drop_logging=Tru
     mod.__package__ = package
     g = mod.__dict__
     g.update(_sx_is=P._sx_is, _sx_is_not=P._sx_is_not, _sx_not=_sx_not, _sx_in=_sx_in, _sx_not_in=_sx_not_in,
-             _sx_fstr=_sx_fstr, _sx_tick=_sx_tick, _sx_join=_sx_join)
+             _sx_fstr=_sx_fstr, _sx_tick=_sx_tick, _sx_join=_sx_join,
+             _sx_dict=symcoll.SymDict, _sx_set=symcoll.SymSet, dict=symcoll.SymDict, set=symcoll.SymSet)
     if pre:
         g.update(pre)
     sys.modules[modname] = mod
@@ -209,6 +231,10 @@ def load(with_pgns=True, with_io=False, drop_logging=True, kernel_defer=True):
     if with_pgns:
         R.pgns = load_module(pk + ".pgns", "nmea2000/pgns.py", pk, drop_logging=drop_logging)
         rebind(R.pgns, ("isinstance", "int", "bytes"))
+        for tname in ("master_dict", "master_flags_dict", "master_indirect_lookup_dict"):
+            for k, tbl in R.pgns.__dict__.get(tname, {}).items():
+                if isinstance(tbl, symcoll.SymDict):
+                    tbl.sx_name = (tname, k)
         R.decoder = load_module(pk + ".decoder", "nmea2000/decoder.py", pk, drop_logging=drop_logging)
         rebind(R.decoder, ("isinstance", "int", "bytes", "sum"))
         R.encoder = load_module(pk + ".encoder", "nmea2000/encoder.py", pk, drop_logging=drop_logging)
